@@ -7,7 +7,7 @@ from ..core import AnalysisError, u, walk_local, ancestors, FuncNode
 from ..lib import (construct, std_facts, calls_of_node, copy_kind, at_least,
                    returns_of)
 from ..mayraise import MayRaise
-from .common import ENTER, EXIT, nodes_calling, scope_entry
+from .common import ENTER, EXIT, nodes_calling, scope_entry, instance_state
 
 
 def run(ctx):
@@ -141,6 +141,7 @@ def run(ctx):
   ctx.check(len(inst) == 1, 'C09.thread', ccon, 'exactly one module-level manager instance (%s)' % inst,
             'module-level manager instances: %s' % inst, cloc, instance='instance')
 
+  instance_state(ctx, 'C09.thread', 'config._ScopeManager', {'_active_scopes'}, 'all scope state must live in the one per-thread stack')
   # ---- C09.copy-out
   for pname in ('current_scope', 'active_scopes'):
     pm = c.methods.get(pname)
